@@ -15,7 +15,7 @@ def round_of(cid, meta):
 
 
 def main():
-    rounds = {1: [], 2: [], 3: [], 4: [], 5: [], 6: [], 7: []}
+    rounds = {1: [], 2: [], 3: [], 4: [], 5: [], 6: [], 7: [], 8: []}
     for cid in sorted(os.listdir(SEEDED)):
         mp = os.path.join(SEEDED, cid, 'meta.json')
         if not os.path.exists(mp):
